@@ -360,11 +360,29 @@ impl Kx {
         self.id
     }
 }
+/// Non-reflexive key mode (`map_mc --nan`): key code NAN_CODE compares unequal to everything,
+/// itself included (like f64::NAN under PartialEq). 255 = off.
+pub static NAN_CODE: std::sync::atomic::AtomicU8 = std::sync::atomic::AtomicU8::new(255);
+pub fn set_nan_code(c: Option<u8>) {
+    NAN_CODE.store(c.unwrap_or(255), std::sync::atomic::Ordering::Relaxed);
+}
+#[inline]
+pub fn nan_code() -> Option<u8> {
+    match NAN_CODE.load(std::sync::atomic::Ordering::Relaxed) {
+        255 => None,
+        c => Some(c),
+    }
+}
 impl PartialEq for Kx {
     fn eq(&self, other: &Self) -> bool {
         tick(Cb::Eq);
         touch(true, self.cookie, self.id, self.k, self.tag, "==");
         touch(true, other.cookie, other.id, other.k, other.tag, "==");
+        if let Some(n) = nan_code() {
+            if self.k == n || other.k == n {
+                return false;
+            }
+        }
         self.k == other.k
     }
 }
@@ -504,6 +522,8 @@ pub trait KeyT: PartialEq + Eq + Clone + Borrow<Self::Q> + fmt::Debug + Sized + 
     const TAGS: u8;
     /// largest usable key universe
     const MAXK: u8;
+    /// key codes below this can be made (codes in MAXK..MAXCODE serve as fillers outside every universe)
+    const MAXCODE: u8 = Self::MAXK;
     const LEDGER: bool;
     const DISTINCT_Q: bool;
     /// no payload method allocates (so a subject call with this type must not allocate)
@@ -530,6 +550,7 @@ pub trait ValT: PartialEq + Clone + Default + fmt::Debug + Sized + 'static {
 }
 
 impl KeyT for Kx {
+    const MAXCODE: u8 = 64;
     type Q = u8;
     const NAME: &'static str = "Kx";
     const TAGS: u8 = 2;
@@ -566,6 +587,7 @@ impl ValT for Vx {
 }
 
 impl KeyT for u8 {
+    const MAXCODE: u8 = 64;
     const PLAIN: bool = true;
     type Q = u8;
     const NAME: &'static str = "u8";
@@ -784,6 +806,7 @@ impl fmt::Debug for Kn {
     }
 }
 impl KeyT for Kn {
+    const MAXCODE: u8 = 64;
     type Q = u8;
     const NAME: &'static str = "Kn(no drop glue)";
     const TAGS: u8 = 2;
